@@ -2,7 +2,7 @@
    with or without an index; optional null padding under ZeroLengthSectionAsEOF) returns exactly the
    roots and the (CID, bytes) sequence.  Extends ScanFacts' CARv1 lemmas. *)
 From GoCar Require Import Bytes Varint Cid Header Frame V2Header Scan Index Store ReadOnly.
-From GoCarProofs Require Import BytesFacts VarintFacts CidFacts HeaderFacts ScanFacts ReadOnlyFacts.
+From GoCarProofs Require Import BytesFacts VarintFacts CidFacts HeaderFacts ScanFacts ReadOnlyFacts ReadOnlyRefine.
 
 Section Readers.
   Variable hok : bytes -> bytes -> option bool.
@@ -43,32 +43,38 @@ Section Readers.
     pose proof (enc_sections_length hok hdrdec bs). rewrite app_length. lia.
   Qed.
 
+  (* a constructed archive a (verifying) sequential reader accepts under options o; ro = None: nil roots *)
+  Definition archive_ok_o (o : ropts) (ro : option (list bytes)) (bs : list block) : Prop :=
+    hdrdec (enc_header ro 1) = Some (hdr_roots ro, 1) /\ blen (enc_header ro 1) <= o_maxh o /\
+    blen (enc_header ro 1) < two63 /\
+    Forall (block_ok (o_maxs o)) bs /\ (o_trusted o = false -> Forall (hash_good hok) bs).
+
   (* v2 BlockReader over a CARv1 with null padding *)
-  Theorem br_read_all_v1_np o roots bs npad : archive_ok hok hdrdec o roots bs ->
+  Theorem br_read_all_v1_np o ro bs npad : archive_ok_o o ro bs ->
     (npad = 0 \/ o_zeof o = true) ->
-    br_read_all hok hdrdec o (payload_np roots bs npad) = Ok (1, roots, mkscan bs EEof).
+    br_read_all hok hdrdec o (payload_np ro bs npad) = Ok (1, hdr_roots ro, mkscan bs EEof).
   Proof.
-    intros (Hg & Hmax & H63 & Hok & Hh) Hz. unfold br_read_all, br_open, payload_np, enc_payload.
-    rewrite <- app_assoc. rewrite read_header_payload by assumption. cbn [N.eqb Pos.eqb].
+    intros (Hg & Hmax & H63 & Hok & Hh) Hz. unfold br_read_all, br_open. rewrite payload_np_split.
+    rewrite (read_header_ld hdrdec) by assumption. cbn [N.eqb Pos.eqb].
     rewrite scan_all_sections_np by assumption. reflexivity.
   Qed.
 
   (* v2 BlockReader over a CARv2 container *)
-  Theorem br_read_all_v2 o roots bs npad chi clo dpad ipad ib :
-    archive_ok hok hdrdec o roots bs -> (npad = 0 \/ o_zeof o = true) ->
+  Theorem br_read_all_v2 o ro bs npad chi clo dpad ipad ib :
+    archive_ok_o o ro bs -> (npad = 0 \/ o_zeof o = true) ->
     hdrdec pragma_body = Some ([], 2) -> 10 <= o_maxh o ->
     chi < two64 -> clo < two64 ->
-    blen (v2_file chi clo dpad ipad (payload_np roots bs npad) ib) < two63 ->
-    br_read_all hok hdrdec o (v2_file chi clo dpad ipad (payload_np roots bs npad) ib)
-    = Ok (2, roots, mkscan bs EEof).
+    blen (v2_file chi clo dpad ipad (payload_np ro bs npad) ib) < two63 ->
+    br_read_all hok hdrdec o (v2_file chi clo dpad ipad (payload_np ro bs npad) ib)
+    = Ok (2, hdr_roots ro, mkscan bs EEof).
   Proof.
     intros (Hg & Hmax & H63 & Hok & Hh) Hz Hpr Hmh Hchi Hclo Hlen.
-    set (payload := payload_np roots bs npad) in *.
+    set (payload := payload_np ro bs npad) in *.
     set (ioff := match ib with Some _ => 51 + dpad + blen payload + ipad | None => 0 end).
     set (h := mkv2 chi clo (51 + dpad) (blen payload) ioff).
     assert (Hpay : 0 < blen payload).
-    { unfold payload, payload_np, enc_payload. rewrite !blen_app, blen_ld. unfold ld_size.
-      pose proof (uv_size_pos (blen (enc_header (Some roots) 1))). lia. }
+    { unfold payload. rewrite payload_np_split, !blen_app, blen_ld. unfold ld_size.
+      pose proof (uv_size_pos (blen (enc_header ro 1))). lia. }
     pose proof (v2_file_len chi clo dpad ipad payload ib _ ioff h eq_refl eq_refl eq_refl) as Hl.
     unfold br_read_all, br_open.
     assert (Hfile : v2_file chi clo dpad ipad payload ib
@@ -80,8 +86,8 @@ Section Readers.
       [|unfold ioff; destruct ib; lia].
     replace (51 + dpad - 51) with (blen (zerosN dpad)) by (rewrite blen_zerosN; lia).
     rewrite drop_app, take_app.
-    unfold payload at 1, payload_np, enc_payload. rewrite <- app_assoc.
-    rewrite read_header_payload by assumption. cbn [N.eqb Pos.eqb].
+    unfold payload at 1. rewrite payload_np_split.
+    rewrite (read_header_ld hdrdec) by assumption. cbn [N.eqb Pos.eqb].
     rewrite scan_all_sections_np by assumption. reflexivity.
   Qed.
 End Readers.
@@ -185,14 +191,15 @@ Section RootReader.
   Qed.
 
   (* root-module car.NewCarReader + Next loop (also what car.LoadCar stores, in order) *)
-  Theorem root_read_all_v1 roots bs :
-    hdr_good hdrdec roots -> blen (enc_header (Some roots) 1) <= root_max_section -> roots <> [] ->
+  Theorem root_read_all_v1 ro bs :
+    hdrdec (enc_header ro 1) = Some (hdr_roots ro, 1) -> blen (enc_header ro 1) <= root_max_section ->
+    hdr_roots ro <> [] ->
     Forall root_block_ok bs -> Forall (hash_good hok) bs ->
-    root_read_all hok hdrdec (enc_payload roots bs) = Ok (roots, mkscan bs EEof).
+    root_read_all hok hdrdec (ld (enc_header ro 1) ++ enc_sections bs) = Ok (hdr_roots ro, mkscan bs EEof).
   Proof.
-    intros Hg Hmax Hne Hok Hh. unfold root_read_all, read_header_root, enc_payload.
+    intros Hg Hmax Hne Hok Hh. unfold root_read_all, read_header_root.
     rewrite ld_read_root_ld by exact Hmax. rewrite Hg. cbn [N.eqb Pos.eqb negb].
-    destruct roots as [|r rs]; [congruence|].
+    destruct (hdr_roots ro) as [|r rs]; [congruence|].
     unfold scan_all_root. rewrite scan_blocks_root_sections; try assumption; [reflexivity|].
     pose proof (enc_sections_length hok hdrdec bs). lia.
   Qed.
